@@ -80,4 +80,25 @@ CLAIMS['C04'] = {
             'O4.5: replacing any single octet of the protected string (symbolic position and value) makes decryption raise. Reachability witnesses show the accepting paths are reached. Path trees exhausted within bounds.',
     'note': 'Assumes the real ciphers behave like the ideal one and SHA-1 like a collision-free function (that is cryptography, not PGPy). Not covered: ECDH unwrap (C code), bodies beyond a few octets. '
             'Observed, not a violation of the property as stated: PGPy has no minimum-length check on the decrypted string and none on the session-key block length.'}
+CLAIMS['C20'] = {
+    'technique': 'bounded symbolic execution of the real message composition / export / import code against an independent packet splitter and the RFC 4880 11.3 grammar (CrossHair+z3)',
+    'text': 'Messages are built through the real PGPMessage API with 0..3 fabricated signatures whose creation times (incl. ties), hash algorithms and issuers are chosen by symbolic indices and whose content octets are symbolic; '
+            'the export is cut into packets by an independent splitter and checked against the grammar (n one-pass packets in reverse order of the n signatures, each naming type, hash, algorithm and issuer, only the last flagged; one literal). '
+            'Metadata round trip (content, format, file name incl. _CONSOLE, time, compression id, signatures), the compression wrapper (identity compressor stand-in), old-format and partial-length foreign encodings, and the encrypted-message grammar are separate obligations. '
+            'Path trees exhausted within bounds.',
+    'note': 'Trusted: the splitter and grammar in harness/c20.py, fabricated signatures, identity compressor, cipher/S2K stand-ins. Not covered: zlib/bz2 content round trip (C), bodies beyond a few octets, times beyond 5 boundary values, charset transcoding. '
+            'One genuine defect repaired (fix: 7a680e2, one-pass flag octets).'}
+CLAIMS['C11'] = {
+    'technique': 'bounded symbolic execution of the text-signature hashing and cleartext signing code against an RFC 4880 7.1 reference (CrossHair+z3)',
+    'text': 'Decided: the octets hashed for a text (0x01) signature equal the RFC 4880 7.1 canonical form for every text of 0..4 octets over the full byte alphabet (LF, CRLF, lone CR, non-ASCII) outside the region of one recorded finding; '
+            'signing a cleartext message produces a 0x01 signature over exactly the message text, and the Hash: header lists exactly the hash algorithms of the signatures carried (1..2 signers).',
+    'note': 'NOT decided (regular expressions on symbolic text are outside this tool, probe P14): dash-escaping and its removal, and the cleartext branch of the armor regular expression - i.e. the written-and-read-back round trip of the text. '
+            'The claim is therefore only the signed-octets half of the property. Open known finding KF-C11-trailing-blanks (trailing SP/HT are hashed).'}
+CLAIMS['C08'] = {
+    'technique': 'bounded symbolic execution of the real Packet() dispatch and every packet class codec on symbolic foreign packets, fixed-point contract checked per path (CrossHair+z3)',
+    'text': 'For each packet class (user id, literal, marker, trust, MDC, encrypted data tag 9 and 18, symmetric and public-key session keys, one-pass, signature, RSA / DSA / ElGamal / ECDSA / EdDSA / ECDH public keys and subkeys, '
+            'unprotected and protected secret keys with every S2K form incl. GNU dummy, user attribute, unknown tags and unknown versions) a foreign packet is assembled from symbolic octets under new- and old-format headers of every length-of-length, followed by trailing octets; '
+            'if PGPy accepts it, it must consume exactly its octets, re-serialise to a packet whose header length equals its body length, accept that again as the same class, and be a fixed point. Path trees exhausted within the per-class bounds.',
+    'note': 'Bounds: a few symbolic octets per field, integers below 2^32, EC point octets from boundary sets, fixed times, no compressed packets (C code), v4 only. "Same field values" is checked as same class + identical re-serialisation. '
+            'Four genuine defects repaired (secret-key usage 255 aliasing, unhashed area length mismatch, stale header length after normalisation, literal file-name codec).'}
 NOT_APPLICABLE = {p: NB for p in ['C%02d' % i for i in range(1, 21)] if p not in CLAIMS}
